@@ -25,7 +25,7 @@ Definition new_network (s : state) : state * result :=
 
 (* NewBus(name) *)
 Definition new_bus (s : state) (nm : name) : state * result :=
-  let '(h, s) := alloc s in ok (s <| buses ::= <[h := mkBus nm None ∅ ∅ ∅ ∅]> |>).
+  let '(h, s) := alloc s in ok (s <| buses ::= <[h := mkBus nm None ∅ ∅ ∅ ∅ 0]> |>).
 
 (* newNodeInterface(number, node) *)
 Definition fresh_iface (nd : handle) (number : Z) : iface_rec :=
@@ -161,7 +161,7 @@ Definition bus_update_name (s : state) (b : handle) (new : name) : state * resul
 
 (* first failing check of one sent message in Bus.AddNodeInterface *)
 Definition addni_msg_err (B : bus_rec) (M : msg_rec) : list (cause * wrap) :=
-  if bus_max_size <? m_size M then [(TooBig, WMessageSize)]
+  if too_big B (m_size M) then [(TooBig, WMessageSize)]
   else if m_hasStatic M then
     match b_static B !! m_static M with Some _ => [(Duplicated, WCANID)] | None => [] end
   else [].
@@ -346,6 +346,13 @@ Definition parent_bus_static_taken (s : state) (ob : option handle) (c : Z) : bo
   | None => false
   end.
 
+(* NodeInterface.verifyMessageSize: asked of the bus the interface is attached to, if any *)
+Definition parent_bus_too_big (s : state) (ob : option handle) (size : Z) : bool :=
+  match ob with
+  | Some b => match buses s !! b with Some B => too_big B size | None => false end
+  | None => false
+  end.
+
 (* NodeInterface.AddSentMessage *)
 Definition iface_add_sent (s : state) (i : handle) (om : option handle) : state * result :=
   match ifaces s !! i with
@@ -360,7 +367,7 @@ Definition iface_add_sent (s : state) (i : handle) (om : option handle) : state 
         match i_sentNames Ii !! m_name M with
         | Some _ => err s Duplicated WName
         | None =>
-          if bool_decide (is_Some (i_parent Ii)) && (bus_max_size <? m_size M) then err s TooBig WMessageSize
+          if parent_bus_too_big s (i_parent Ii) (m_size M) then err s TooBig WMessageSize
           else if m_hasStatic M then
             match i_sentStatic Ii !! m_static M with
             | Some _ => err s Duplicated WCANID
